@@ -49,13 +49,15 @@ def families(quick):
         return [fam('A-applied', 'applied', 5), fam('A-validated', 'validated', 4),
                 fam('B-applied', 'applied', 4, built=2, nctx=2, batches=(1,), acts=('fill', 'autofill', 'inject')),
                 fam('B-shared', 'applied', 3, built=2, nctx=1, batches=(1, 2)),
-                fam('P-applied', 'applied', 7, batches=(1,), acts=auto), fam('P-validated', 'validated', 6, batches=(1,), acts=auto)]
+                fam('P-applied', 'applied', 7, batches=(1,), acts=auto), fam('P-validated', 'validated', 6, batches=(1,), acts=auto),
+                fam('P-split', 'split', 6, batches=(1,), acts=auto)]
     pipe = ('fill', 'autofill', 'inject', 'bake')
     return [fam('A-applied', 'applied', 6), fam('A-validated', 'validated', 6),
             fam('B-applied', 'applied', 4, built=2, nctx=2, batches=(1, 2)),
             fam('B-validated', 'validated', 4, built=2, nctx=2, batches=(1,), acts=two),
             fam('B3-applied', 'applied', 4, built=3, nctx=3, batches=(1,), acts=two),
-            fam('P-applied', 'applied', 8, batches=(1,), acts=pipe), fam('P-validated', 'validated', 8, batches=(1,), acts=auto)]
+            fam('P-applied', 'applied', 8, batches=(1,), acts=pipe), fam('P-validated', 'validated', 8, batches=(1,), acts=auto),
+            fam('P-split', 'split', 7, batches=(1,), acts=auto)]
 
 
 # ------------------------------------------------------------------ Leg B
@@ -143,7 +145,7 @@ def run(ctx):
         'FakeNode (harness/vf/fakenode.py) is a simulated node for one account; it accepts an injection iff the counters decoded from the binary payload are counter+pending+1..; no pytezos function is patched',
         'domain: groups are injected in the order in which they were filled, each at most once; filled groups may be abandoned',
         'injections of groups filled behind a group whose injection the node later refused are outside the compared domain (counted as skipped)',
-        'the legacy mempool RPC form ("applied") and the current one ("validated", Octez >= v19) are both simulated, as separate families',
+        'the legacy mempool RPC form ("applied") and the current one ("validated", Octez >= v19) are both simulated, as separate families; a third family serves the oldest pending operation under "validated" and the later ones under "unprocessed"',
         'sign() is part of the inject step of a history (signing does not touch counters; C23 covers it)',
     ]
     exemplars = {}
